@@ -310,6 +310,9 @@ def main():
         'violations': len(violations),
     }
     evdir = os.environ.get('VERIF_EVIDENCE_DIR') or os.path.join(VERIF, 'evidence')
+    if (args.no_proof or args.replay) and not os.environ.get('VERIF_EVIDENCE_DIR'):
+        # development / replay runs never overwrite the evidence of record
+        evdir = os.path.join(VERIF, '.cache', 'evidence-dev')
     os.makedirs(evdir, exist_ok=True)
     with open(os.path.join(evdir, prop + '.json'), 'w') as f:
         json.dump(json.loads(jdump(ev)), f, indent=1, sort_keys=True)
